@@ -226,3 +226,21 @@ mod weibull;
 mod zeta;
 mod ziggurat_tables;
 mod zipf;
+
+/// Verification hooks (only with `--cfg rand_distr_verif`): read-only access to
+/// the otherwise private ziggurat tables.
+#[cfg(rand_distr_verif)]
+#[doc(hidden)]
+pub mod verif_hooks {
+    use crate::ziggurat_tables as zt;
+
+    /// `(ZIG_NORM_R, ZIG_NORM_X, ZIG_NORM_F)`
+    pub fn zig_norm() -> (f64, &'static [f64; 257], &'static [f64; 257]) {
+        (zt::ZIG_NORM_R, &zt::ZIG_NORM_X, &zt::ZIG_NORM_F)
+    }
+
+    /// `(ZIG_EXP_R, ZIG_EXP_X, ZIG_EXP_F)`
+    pub fn zig_exp() -> (f64, &'static [f64; 257], &'static [f64; 257]) {
+        (zt::ZIG_EXP_R, &zt::ZIG_EXP_X, &zt::ZIG_EXP_F)
+    }
+}
